@@ -222,6 +222,8 @@ def scan_module(prog, m):
                 return True
             if name.lstrip("_")[:1].isupper() and name not in ("TypeVar", "NewType", "Union", "Optional"):
                 K = prog.resolve_class(m, f)
+                if K is not None and K.record_fields is not None:
+                    return False            # an immutable record (NamedTuple / frozen dataclass): a constant
                 if K is not None and prog.find_method(K, "__set__")[1] is not None:
                     # a descriptor: shared only if it keeps the values on itself instead of on the instance
                     st = prog.find_method(K, "__set__")[1]
